@@ -25,7 +25,7 @@ EXPLANATION = (
 ASSUMPTIONS = ["real arithmetic (rounding not modelled); degrees in [0,1]; the transcription of the documented formulas in HEDGES is faithful"]
 LEVEL_SCOPE = ("Decides the listed clauses for every order type (piece) over real arithmetic, reporting only definite disagreements; floating-point "
                "rounding and the clauses listed as undecided are not decided.")
-FLOORS = {"F": 6, "X": 6, "R": 6, "M": 6, "O": 2, "I": 5, "V1": 6}
+FLOORS = {"K1": 6, "F": 6, "X": 6, "R": 6, "M": 6, "O": 2, "I": 5, "V1": 6}
 
 HEDGES: dict[str, dict] = {
     "Any": {"cases": [(None, "1")], "fix": {0: 1, 1: 1}, "direction": 0},
@@ -73,6 +73,10 @@ def run(check: Check) -> None:
         if fn is None:
             raise AnalysisError(f"anchor vanished: {name}.hedge")
         check.analysed(fn)
+        from .common import kernel_purity
+
+        if not kernel_purity(check, fn, "K1", f"{name}.hedge/pure", set()):
+            continue
         fns[name] = fn
         code[name] = substitute(flatten(p, return_term(p, c, "hedge")), {("param", fn.params[1].name): X})
         c02.kernel_elementwise(check, fn, "V1", f"{name}.hedge")
@@ -90,6 +94,8 @@ def run(check: Check) -> None:
 
     ZERO_T, ONE_T = ("const", 0), ("const", 1)
     for name, spec in HEDGES.items():
+        if name not in fns:
+            continue
         fn, t = fns[name], code[name]
         cases = [(spec_term(cnd, names) if cnd else None, spec_term(val, names)) for cnd, val in spec["cases"]]
         one, short = pieces(check, [X], [t] + [x for cs in cases for x in cs if x is not None])
@@ -128,6 +134,8 @@ def run(check: Check) -> None:
         tally("M", f"{name}.hedge/monotone", f"{name}: " + {1: "monotone", -1: "antitone", 0: "constant"}[spec["direction"]], fn, m_res, len(m_res))
     # O: very(x) <= x <= somewhat(x)
     for name, rel in (("Very", "neg"), ("Somewhat", "pos")):
+        if name not in fns:
+            continue
         one, short = pieces(check, [X], [code[name]])
         res = []
         for lf, ev, alg in one:
@@ -138,6 +146,8 @@ def run(check: Check) -> None:
         tally("O", f"{name}.hedge/order", f"{name.lower()}(x) {'<=' if rel == 'neg' else '>='} x", fns[name], res, len(res))
     # I: inverse pairs
     for outer, inner in INVERSES:
+        if outer not in fns or inner not in fns:
+            continue
         comp = substitute(code[outer], {X: code[inner]})
         one, short = pieces(check, [X], [comp, code[inner]])
         res = []
